@@ -10,34 +10,55 @@ RULE = ("trees = every parents-first topology up to the bound x every assignment
 Q = 10000
 
 
-def mk_tree(c):
+# placements (length unit, offset): as given; atlas coordinates (exact in single precision: sibling tips one unit apart at several thousand); a unit
+# of 10.1 with the origin inside the tree (branches cross the coordinate planes; nothing is exactly representable)
+PLACES = [(1.0, (0.0, 0.0, 0.0)), (1.0, (4101.0, -3077.0, 5113.0)), (10.1, (-25.3, -31.7, -20.9))]
+
+
+FAR = (0.5, (12011.3, -9077.7, 15113.1))
+
+
+def place_of(c):
+    return FAR if c.get("far") else PLACES[lib.vid(c) % 3]
+
+
+def mk_tree(c, pl=None):
     from swcgeom.core import Tree
     P, pos, rad = c["P"], c["pos"], c["rad"]
     n = len(P)
+    u, off = pl or PLACES[0]
     ty = [c["rtype"]] + [3] * (n - 1)
     return Tree(n, source=lib.SRC, id=np.arange(n, dtype=np.int32), pid=np.array(P, dtype=np.int32), type=np.array(ty, dtype=np.int32),
-                x=np.array([p[0] for p in pos], dtype=np.float32), y=np.array([p[1] for p in pos], dtype=np.float32),
-                z=np.array([p[2] for p in pos], dtype=np.float32), r=np.array(rad, dtype=np.float32))
+                x=np.array([p[0] * u + off[0] for p in pos], dtype=np.float32), y=np.array([p[1] * u + off[1] for p in pos], dtype=np.float32),
+                z=np.array([p[2] * u + off[2] for p in pos], dtype=np.float32), r=np.array([v * u for v in rad], dtype=np.float32))
 
 
-def qpts(obj):
-    return [[int(round(float(v) * Q)) for v in row] for row in zip(obj.x(), obj.y(), obj.z(), obj.r())]
+def qpts(obj, pl=(1.0, (0.0, 0.0, 0.0))):
+    u, off = pl
+    snap = pl is FAR
+
+    def q(v, o):
+        w = (float(v) - o) / u
+        if snap and abs(w - round(w)) < 0.02:
+            w = round(w)                  # far from the origin single precision leaves a residue of a few thousandths
+        return int(round(w * Q))
+    return [[q(v, o) for v, o in zip(row, off + (0.0,))] for row in zip(obj.x(), obj.y(), obj.z(), obj.r())]
 
 
-def tree_result(fn):
+def tree_result(fn, pl):
     try:
         t = fn()
         seg = t.get_segments()
-        length = float(t.length())
-        return {"err": "", "pid": [int(v) for v in t.pid()], "pts": qpts(t), "rtype": int(t.type()[0]), "len": int(round(length * Q)),
+        length = float(t.length()) / pl[0]
+        return {"err": "", "pid": [int(v) for v in t.pid()], "pts": qpts(t, pl), "rtype": int(t.type()[0]), "len": int(round(length * Q)),
                 "idsok": int([int(v) for v in t.id()] == list(range(len(t.id()))))}
     except Exception as e:      # noqa: BLE001 - an exception is an observation
         return {"err": type(e).__name__, "pid": [-1], "pts": [[0, 0, 0, 0]], "rtype": 0, "len": 0, "idsok": 0}
 
 
-def pts_result(fn):
+def pts_result(fn, pl):
     try:
-        return {"err": "", "pts": qpts(fn())}
+        return {"err": "", "pts": qpts(fn(), pl)}
     except Exception as e:      # noqa: BLE001
         return {"err": type(e).__name__, "pts": [[0, 0, 0, 0]]}
 
@@ -47,20 +68,27 @@ def execute(c):
     from swcgeom.transforms import IsometricResampler, BranchLinearResampler, BranchConvSmoother, TreeSmoother
     from swcgeom.transforms.branch import BranchIsometricResampler
     from swcgeom.transforms.branch_tree import BranchTreeAssembler
-    t = mk_tree(c)
-    d = c["sp"][0] / c["sp"][1]
+    pl = place_of(c)
+    if pl[0] != 1.0:
+        # with an inexact unit a branch whose length is a whole number of spacings is a floating-point tie (one point more or less): such trees
+        # keep the exact placement
+        lens = [int(round(float(b.length()))) for b in mk_tree(c).get_branches()]
+        if any(L > 0 and (L * c["sp"][1]) % c["sp"][0] == 0 for L in lens):
+            pl = PLACES[0]
+    t = mk_tree(c, pl)
+    d = c["sp"][0] / c["sp"][1] * pl[0]
     adj = bool(c["adjust"])
     o = {}
-    o["iso"] = tree_result(lambda: lib.outlives(lib.reused(IsometricResampler(d, adjust_last_gap=adj), c, t), t, c))
-    o["same"] = tree_result(lambda: BranchTreeAssembler()(BranchTree.from_tree(t)))
+    o["iso"] = tree_result(lambda: lib.outlives(lib.reused(IsometricResampler(d, adjust_last_gap=adj), c, t), t, c), pl)
+    o["same"] = tree_result(lambda: BranchTreeAssembler()(BranchTree.from_tree(t)), pl)
     brs = t.get_branches()
     b1 = min(brs, key=lambda b: int(b.origin_id()[-1]))
     ob = lib.other_branches()           # the same resampler / smoother object goes on to other branches before its first result is read
-    o["blin"] = pts_result(lambda: lib.outlives(BranchLinearResampler(c["n"]), b1, c, ob))
-    o["biso"] = pts_result(lambda: lib.outlives(BranchIsometricResampler(d, adjust_last_gap=adj), b1, c, ob))
-    ts = tree_result(lambda: lib.outlives(lib.reused(TreeSmoother(c["win"]), c, t), t, c))
+    o["blin"] = pts_result(lambda: lib.outlives(BranchLinearResampler(c["n"]), b1, c, ob), pl)
+    o["biso"] = pts_result(lambda: lib.outlives(BranchIsometricResampler(d, adjust_last_gap=adj), b1, c, ob), pl)
+    ts = tree_result(lambda: lib.outlives(lib.reused(TreeSmoother(c["win"]), c, t), t, c), pl)
     o["tsm"] = ts
-    o["bsm"] = pts_result(lambda: lib.outlives(BranchConvSmoother(c["win"]), b1, c, ob))
+    o["bsm"] = pts_result(lambda: lib.outlives(BranchConvSmoother(c["win"]), b1, c, ob), pl)
     return o
 
 
